@@ -937,6 +937,14 @@ def program_sets(tier: str, rng: random.Random):
         for init in ([], [["failure", "TRANSIENT", 18], ["failure", "TRANSIENT", 19]]):
             for th in ([[R], [R]], [[R], [T]], [[T], [T]], [[R], [["allow", NOW]]]):
                 yield {"component": "breaker", "cfg": BCFG_CLASS, "init": init, "init_name": f"class_cfg_{len(init)}", "threads": th}
+        # a class failure racing a transition that clears the counters (probe success / cancel / a failure that
+        # opens): the per-class bucket the failure is counted in must be the one that survives
+        cfg2 = {"ft": 3, "window": 8, "recovery": 4, "trip": "none", "class": "RATE_LIMIT:2"}
+        opened = [["failure", "TRANSIENT", 16], ["failure", "TRANSIENT", 16], ["failure", "TRANSIENT", 16]]
+        for init, name in ((opened + [["allow", 20]], "class2_half_open_probe"), (opened, "class2_open_at_boundary"),
+                           ([["failure", "RATE_LIMIT", 18]], "class2_one_class_failure")):
+            for th in ([[R], [["success"]]], [[R], [["cancel"]]], [[R], [R]], [[R], [T]], [[R], [["allow", NOW]]]):
+                yield {"component": "breaker", "cfg": cfg2, "init": init, "init_name": name, "threads": th}
 
     yield ("breaker 2 threads x 1 op, all inits, all op pairs", True, list(pairs_1x1("breaker")))
     yield ("budget 2 threads x 1 op, all inits, all op pairs", True, list(pairs_1x1("budget")))
